@@ -8,7 +8,7 @@
    folders F = Z;  sizes are supplied per value id by the harness
    (sys.getsizeof(pickle.dumps(value))). *)
 From Coq Require Import ZArith List Bool String.
-From DM Require Export Base.PyVal Spec.Memo Spec.MemoKey Spec.MemoLazy.
+From DM Require Export Base.PyVal Spec.Memo Spec.MemoExn Spec.MemoKey Spec.MemoLazy.
 Import ListNotations.
 Open Scope Z_scope.
 
@@ -29,6 +29,20 @@ Definition tC (i : nat) (a : nat) (e : event Z Z) : tev nat Z Z Z := TCall i a e
 (* true = the observed trace satisfies the property *)
 Definition oracle (sizes : list (Z * Z)) (tr : list (tev nat Z Z Z)) : bool :=
   accept nat Z Z Z cf ckey cthunks (csize sizes) Z.eqb Z.eqb Z.eqb w0 tr.
+
+(* ---- histories in which calls may RAISE (Spec/MemoExn.v).  The raising argument lists of the harness' alphabet:
+   bases 160-162 -- the body raises (whatever callables stand for its arguments); class 2163 = base 163 with both of
+   its callables -- the second callable raises while it is evaluated (lazy instances; the body does not run). ---- *)
+Definition cexn (a : nat) : option bool :=
+  let b := Nat.modulo a 1000 in
+  if Nat.leb 160 b && Nat.leb b 162 then Some true
+  else if Nat.eqb a 2163 then Some false else None.
+Definition mx (ran : bool) (forced : nat) (keys : list Z) (cs : Z) (files : list Z) : xevent Z :=
+  {| x_ran := ran; x_forced := forced; x_keys := keys; x_csize := cs; x_files := files |}.
+Definition xT (t : tev nat Z Z Z) : xtev nat Z Z Z := XT t.
+Definition xR (i : nat) (a : nat) (e : xevent Z) : xtev nat Z Z Z := XRaise i a e.
+Definition oracle_x (sizes : list (Z * Z)) (tr : list (xtev nat Z Z Z)) : bool :=
+  accept_x nat Z Z Z cf cexn ckey cthunks (csize sizes) Z.eqb Z.eqb Z.eqb w0 tr.
 
 (* ---- the key: does the implementation give two argument lists the same key exactly when they are the same
    argument list (Spec/MemoKey.v: tuple ~ list, keyword/dict order irrelevant, everything else distinguished)? ---- *)
